@@ -240,11 +240,24 @@ fn run_random(ctx: &Ctx) -> Report {
         let mut rng = Rng::derive(seed, 0xC10, *idx as u64);
         let len = rng.range(20, maxlen);
         let five = bars5(len, &mut rng);
+        // one stream in eight carries bad ticks: every 211th bar is quoted 10^7 times too high in all price
+        // fields (what it leaves behind in a running sum must not differ between the two feed forms)
+        let bad_ticks = idx % 8 == 3;
+        let five: Vec<Bar> = if bad_ticks {
+            rep.count("streams.with_bad_ticks");
+            five.iter().enumerate().map(|(i, b)| if i % 211 == 17 { b.scale_prices(1e7) } else { *b }).collect()
+        } else {
+            five
+        };
         let head5: Vec<f64> = five.iter().take(12).flat_map(|b| b.fields()).collect();
         let ops5: Vec<Op> = five.iter().map(|b| Op::NextBar(*b)).collect();
         // (a) bar vs documented scalar field
         for kind in CLOSE_KINDS.iter().chain([Kind::Min, Kind::Max].iter()) {
-            let p = variant(*kind, &mut rng);
+            let mut p = variant(*kind, &mut rng);
+            if bad_ticks && p.kind.n_periods() == 1 && !p.is_default() {
+                // long windows on these streams (a fast path may exist only above some window length)
+                p.p[0] = 128 + (idx / 8) % 173;
+            }
             let ops_b: Vec<Op> = five
                 .iter()
                 .map(|b| {
